@@ -8,7 +8,7 @@
      state.py     State.notify_var_get (l.190)                -> [fill], [nv_lookup]
 
    Entities, attributes and values are [N] ids (the harness keeps the id <-> string table):  entity i = "pyscript.e<i>",
-   attribute j = "x<j>", state value v = the string "s<v>", attribute value n = the int n.  A state variable is
+   attribute j = "x<j>", state value v = the digit string "<v>", attribute value n = the int n.  A state variable is
    [option sv] ([None] = does not exist).  Dotted names are the constructors of [name].  A dictionary handed to the
    expression evaluator (notify_vars) is represented by its lookup function ([nv_lookup] : name -> option pyval, [None] =
    key absent) - notify_var_get fills each key independently of the others, so the iteration order of the Python set does
